@@ -211,15 +211,30 @@ RoundTrip(d, s) ==
 (* s must agree outside the literal, and the differing middle must be one  *)
 (* literal of the dialect denoting s.                                      *)
 
-SameShape(d, ref, at, len, sql, s, marker) ==
+(* The marker's literal in the reference statement: mpos is where the       *)
+(* marker's characters start; the literal starts one or two code points    *)
+(* earlier (opening quote, possibly a prefix letter).                      *)
+LitSpan(d, ref, mpos, marker) ==
+  LET ok(o) == /\ mpos - o >= 1
+               /\ LET r == Lex(d, SubSeq(ref, mpos - o, Len(ref)))
+                  IN r.ok /\ r.val = marker
+      cands == {o \in {1, 2} : ok(o)}
+  IN IF cands = {} THEN [ok |-> FALSE, at |-> 0, len |-> 0]
+     ELSE LET o == IF 2 \in cands THEN 2 ELSE 1
+          IN [ok |-> TRUE, at |-> mpos - o,
+              len |-> Lex(d, SubSeq(ref, mpos - o, Len(ref))).end]
+
+SameShapeAt(d, ref, at, len, sql, s) ==
   LET pre == SubSeq(ref, 1, at - 1)
       suf == SubSeq(ref, at + len, Len(ref))
       mid == SubSeq(sql, at, Len(sql) - Len(suf))
-  IN /\ IsOneLiteral(d, SubSeq(ref, at, at + len - 1))
-     /\ Decode(d, SubSeq(ref, at, at + len - 1)) = marker
-     /\ Len(sql) >= Len(pre) + Len(suf) + 2
+  IN /\ Len(sql) >= Len(pre) + Len(suf) + 2
      /\ SubSeq(sql, 1, at - 1) = pre
      /\ SubSeq(sql, Len(sql) - Len(suf) + 1, Len(sql)) = suf
      /\ IsOneLiteral(d, mid)
      /\ Decode(d, mid) = s
+
+SameShape(d, ref, mpos, sql, s, marker) ==
+  LET sp == LitSpan(d, ref, mpos, marker)
+  IN sp.ok /\ SameShapeAt(d, ref, sp.at, sp.len, sql, s)
 =============================================================================
